@@ -233,6 +233,22 @@ pub static LAY_OPS: &[OpSpec] = &[
     OpSpec { code: lay::TRY_RESERVE, name: "try_reserve", args: &[Small(161), Choice(4), Any] },
 ];
 
+pub mod par {
+    pub const INSERT: u16 = 0;
+    pub const FILL: u16 = 1;
+    pub const REMOVE_RANGE: u16 = 2;
+    pub const REMOVE_STRIDE: u16 = 3;
+    pub const PAR: u16 = 4;
+}
+
+pub static PAR_OPS: &[OpSpec] = &[
+    OpSpec { code: par::INSERT, name: "insert", args: &[Small(4999), Choice(4), Val] },
+    OpSpec { code: par::FILL, name: "fill", args: &[Small(3000), Choice(4), Small(3999)] },
+    OpSpec { code: par::REMOVE_RANGE, name: "remove_range", args: &[Small(4999), Choice(4), Small(1499)] },
+    OpSpec { code: par::REMOVE_STRIDE, name: "remove_stride", args: &[Small(6), Choice(4)] },
+    OpSpec { code: par::PAR, name: "par", args: &[Choice(16), Choice(7), Wide, Wide] },
+];
+
 pub static SERDE_OPS: &[OpSpec] = &[OpSpec { code: 0, name: "entry", args: &[Key, Val] }];
 
 pub fn specs_for(kind: &str) -> &'static [OpSpec] {
@@ -242,6 +258,7 @@ pub fn specs_for(kind: &str) -> &'static [OpSpec] {
         "set" => SET_OPS,
         "lay" => LAY_OPS,
         "serde" => SERDE_OPS,
+        "par" => PAR_OPS,
         _ => &[],
     }
 }
